@@ -277,7 +277,7 @@ class _TickTagged(list):
         self.run.air_by_tick.setdefault(self.run.cur_tick, []).append(ev)
 
 
-def explore(sc, opcodes, max_pre):
+def explore(sc, opcodes, max_pre, stride2=False):
     """enumerate all schedules with <= max_pre pre-emptions; returns (n_schedules, n_contended, steps).
     The process is pinned to one CPU meanwhile: exactly one thread is runnable at any time anyway, and
     hand-offs between threads on the same core are several times cheaper."""
@@ -286,12 +286,12 @@ def explore(sc, opcodes, max_pre):
     cpus = sorted(old)
     os.sched_setaffinity(0, {cpus[os.getpid() % len(cpus)]})
     try:
-        return _explore(sc, opcodes, max_pre)
+        return _explore(sc, opcodes, max_pre, stride2)
     finally:
         os.sched_setaffinity(0, old)
 
 
-def _explore(sc, opcodes, max_pre):
+def _explore(sc, opcodes, max_pre, stride2=False):
     # dry run to learn the step counts
     sched = interleave.Scheduler(opcodes=opcodes)
     r = RaceRun(sc, sched)
@@ -303,10 +303,14 @@ def _explore(sc, opcodes, max_pre):
         r.s.close()
     plans = [[("B", None), ("A", None)]]
     for first, second in (("A", "B"), ("B", "A")):
-        for k in range(0, steps[first] + 1):
+        # first pre-emption point: every position, or (sampled mode at opcode granularity) at most ~200 spread positions
+        st1 = max(1, steps[first] // 200) if (stride2 and opcodes) else 1
+        for k in range(0, steps[first] + 1, st1):
             plans.append([(first, k), (second, None), (first, None)])
             if max_pre >= 2:
-                for k2 in range(1, steps[second]):
+                # second pre-emption point: every position (thorough) or ~10 evenly spread positions, rotated by k
+                st2 = max(1, steps[second] // 10) if stride2 else 1
+                for k2 in range(1 + (k % st2), steps[second], st2):
                     plans.append([(first, k), (second, k2), (first, None), (second, None)])
     contended = 0
     for plan in plans:
@@ -335,9 +339,9 @@ def check_workers(sched, desc):
             raise Violation("c03:race:thread-stuck", "%s: thread %s did not finish" % (desc, n))
 
 
-def race_oracle_factory(opcodes, max_pre):
+def race_oracle_factory(opcodes, max_pre, stride2=False):
     def race_oracle(sc):
-        n, contended, steps = explore(sc, opcodes, max_pre)
+        n, contended, steps = explore(sc, opcodes, max_pre, stride2)
         return (["op=" + sc["op"], "schedules=%d" % (n // 50 * 50)], contended > 0,
                 {"scenario": sc, "schedules": n, "schedules_with_lock_contention": contended, "steps": steps})
     return race_oracle
@@ -347,8 +351,12 @@ SUBS = [
     Sub("histories", strategy=history(), oracle=hist_oracle, examples={"quick": 500, "thorough": 20000}),
     Sub("races_line_1preemption", strategy=scenario(), oracle=race_oracle_factory(False, 1),
         examples={"quick": 30, "thorough": 400}, shards={"quick": 1, "thorough": 16}),
+    Sub("races_line_2preemptions_sampled", strategy=scenario(), oracle=race_oracle_factory(False, 2, True),
+        examples={"quick": 4, "thorough": 64}, shards={"quick": 1, "thorough": 16}),
     Sub("races_line_2preemptions", strategy=scenario(), oracle=race_oracle_factory(False, 2),
-        examples={"quick": 2, "thorough": 48}, shards={"quick": 1, "thorough": 16}),
+        examples={"quick": 0, "thorough": 48}, shards={"quick": 1, "thorough": 16}),
+    Sub("races_opcode_1preemption_sampled", strategy=scenario(), oracle=race_oracle_factory(True, 1, True),
+        examples={"quick": 3, "thorough": 0}, shards={"quick": 1, "thorough": 16}),
     Sub("races_opcode_1preemption", strategy=scenario(), oracle=race_oracle_factory(True, 1),
-        examples={"quick": 3, "thorough": 64}, shards={"quick": 1, "thorough": 16}),
+        examples={"quick": 0, "thorough": 64}, shards={"quick": 1, "thorough": 16}),
 ]
